@@ -4,7 +4,9 @@ package l2
 
 import (
 	"crypto/x509"
+	"fmt"
 	"io"
+	"os"
 	"sync"
 	"sync/atomic"
 	"time"
@@ -35,7 +37,15 @@ func (o Opts) logger() *zap.Logger {
 	if o.Logger != nil {
 		return o.Logger
 	}
-	// default: every level enabled, output discarded (behaviour must not depend on the log level)
+	// default: behaviour must not depend on the log level. Worker processes with an even shard index
+	// (and unsharded engines) use a logger with every level enabled whose output is discarded; odd
+	// shards use a no-op logger (every level disabled).
+	if s := os.Getenv("VERIF_SHARD"); s != "" {
+		var i, n int
+		if _, err := fmt.Sscanf(s, "%d/%d", &i, &n); err == nil && i%2 == 1 {
+			return zap.NewNop()
+		}
+	}
 	return DebugLogger()
 }
 
